@@ -198,7 +198,7 @@ theorem text_prefix_len {s s' : List Nat} {m : Marks} {L O : List Node} {p : Nat
   rw [h3] at h4
   simp at h4
 
-theorem take_split {α} {X Y X' Y' : List α} {p : Nat} (hl : X.length = X'.length) (hp : X.length ≤ p)
+private theorem take_split {α} {X Y X' Y' : List α} {p : Nat} (hl : X.length = X'.length) (hp : X.length ≤ p)
     (h : (X ++ Y).take p = (X' ++ Y').take p) : X = X' ∧ Y.take (p - X.length) = Y'.take (p - X.length) := by
   rw [take_app_ge _ _ _ hp, take_app_ge _ _ _ (by omega), ← hl] at h
   exact List.append_inj h hl
